@@ -61,7 +61,25 @@ fn rogue(pid: &Pubkey, accounts: &[AccountInfo], data: &[u8]) -> ProgramResult {
     }
 }
 
+/// A panic inside a processor (index out of bounds, RefCell double borrow, `unwrap` on None, …) aborts the instruction
+/// on SBF; natively it is caught here and reported as a failed instruction.
+macro_rules! guarded {
+    ($name:ident, $f:path) => {
+        fn $name(pid: &Pubkey, accounts: &[AccountInfo], data: &[u8]) -> ProgramResult {
+            match std::panic::catch_unwind(std::panic::AssertUnwindSafe(|| $f(pid, accounts, data))) {
+                Ok(r) => r,
+                Err(_) => Err(ProgramError::Custom(0xDEAD)),
+            }
+        }
+    };
+}
+guarded!(rd_entry, rd::verif_process_instruction);
+guarded!(pp_entry, pp::verif_process_instruction);
+guarded!(sw_entry, mock_swap_sol_2z::verif_process_instruction);
+guarded!(rogue_entry, rogue);
+
 pub fn install_hooks() {
+    std::panic::set_hook(Box::new(|_| {}));
     solana_msg::native_hooks::set(|_m| {});
     solana_instruction::syscalls::native_hooks::set(solana_instruction::syscalls::native_hooks::Hooks {
         stack_height: || solana_sysvar::program_stubs::sol_get_stack_height() as usize,
@@ -103,11 +121,11 @@ fn rent(len: usize) -> u64 { (128 + len as u64) * 6960 }
 
 impl Sim {
     pub async fn new(id: u64) -> Sim {
-        let mut pt = ProgramTest::new("doublezero_revenue_distribution", rd::ID, processor!(rd::verif_process_instruction));
-        pt.add_program("doublezero_passport", pp::ID, processor!(pp::verif_process_instruction));
-        pt.add_program("mock_swap_sol_2z", mock_swap_sol_2z::ID, processor!(mock_swap_sol_2z::verif_process_instruction));
-        pt.add_program("rogue1", rogue_id(1), processor!(rogue));
-        pt.add_program("rogue2", rogue_id(2), processor!(rogue));
+        let mut pt = ProgramTest::new("doublezero_revenue_distribution", rd::ID, processor!(rd_entry));
+        pt.add_program("doublezero_passport", pp::ID, processor!(pp_entry));
+        pt.add_program("mock_swap_sol_2z", mock_swap_sol_2z::ID, processor!(sw_entry));
+        pt.add_program("rogue1", rogue_id(1), processor!(rogue_entry));
+        pt.add_program("rogue2", rogue_id(2), processor!(rogue_entry));
         let mut keys = Keys::new();
         let mut init: Vec<(K, Account)> = vec![];
         let auth = user_keypair(UPGRADE_AUTHORITY).pubkey();
